@@ -1,5 +1,5 @@
 //! Driver for socket time-limit tracking (property C19): histories of spec/SockOpt.tla
-//! (socket / setopt / io / close over reusable descriptor numbers) on real sockets through the
+//! (socket / dup / setopt / io / close over reusable descriptor numbers) on real sockets through the
 //! hooked setsockopt / close and the limit functions the hooked I/O calls apply. One process per
 //! scenario (an abort is data).
 use ocverif::*;
@@ -36,6 +36,14 @@ fn run_scenario(sc: &Value) {
                 assert!(fd >= 0);
                 fds.insert(slot, fd);
                 rec(json!({"ev": "op", "i": i, "op": "socket_fd", "slot": slot, "fdnum": fd}));
+            }
+            // a second number for the socket behind slot `from` (what TcpStream::try_clone does)
+            "dup" => {
+                let from = op["from"].as_u64().unwrap();
+                let fd = unsafe { libc::dup(fds[&from]) };
+                assert!(fd >= 0);
+                fds.insert(slot, fd);
+                rec(json!({"ev": "op", "i": i, "op": "dup_fd", "slot": slot, "fdnum": fd}));
             }
             "setopt" => {
                 let fd = fds[&slot];
